@@ -1,5 +1,6 @@
 """C01 - the edit script turns the first document into the second."""
 import itertools
+from collections import Counter
 import random
 
 from vlib import docs as D
@@ -100,15 +101,38 @@ def _has_dups(fmt, x):
     return fmt == 'mset' and len({repr(i) for i in x}) < len(x)
 
 
+def _matcher_dups(fmt, a, b):
+    """The listed finding multiset-duplicates: after the exact matches are taken out, some element is left over two or
+    more times on one side, i.e. equal nodes reach WeightedBipartiteMatcher (whose matching is a dict keyed by node).
+    Duplicates that are all matched exactly (shared repeated members) are NOT that finding."""
+    if fmt != 'mset':
+        return False
+    ca, cb = Counter(repr(i) for i in a), Counter(repr(i) for i in b)
+    return any(v >= 2 for v in (ca - cb).values()) or any(v >= 2 for v in (cb - ca).values())
+
+
+def _partial_dups(fmt, a, b):
+    """The listed finding multiset-partial-duplicate: an element occurs k >= 2 times on one side and 1..k-1 times on the
+    other, so ONE node object (HashableCounter keeps a single key for equal nodes) is both matched and removed/inserted."""
+    if fmt != 'mset':
+        return False
+    ca, cb = Counter(repr(i) for i in a), Counter(repr(i) for i in b)
+    return any((ca[k] >= 2 and 0 < cb[k] < ca[k]) or (cb[k] >= 2 and 0 < ca[k] < cb[k]) for k in set(ca) | set(cb))
+
+
 def _check(job):
     from vlib.par import with_timeout, JobTimeout
     fmt, a, b, opt = job
-    dup = _has_dups(fmt, a) or _has_dups(fmt, b)
+    dup = _matcher_dups(fmt, a, b)
     try:
         fails = with_timeout(_check_inner, job, 4 if dup else JOB_TIMEOUT)
         if dup:
             for f in fails:
                 f['class'] = 'c01-multiset-duplicates'
+        elif _partial_dups(fmt, a, b):
+            for f in fails:
+                if f['class'] == 'c01-annotation-count':
+                    f['class'] = 'c01-multiset-partial-duplicate-annotation'
         return fails
     except JobTimeout:
         return [{'what': f"no result within {4 if dup else JOB_TIMEOUT}s [{fmt}: {a!r} -> {b!r}, opt={opt}]",
@@ -191,6 +215,15 @@ def bounded(tier, seed, repo_root):
         jobs.append(('mset', rnd.choice(msets), rnd.choice(msets), gt.OPTION_COMBOS[rnd.randrange(9)]))
     for _ in range(48 if tier == 'quick' else 480):     # duplicate elements (see known finding multiset-duplicates)
         jobs.append(('mset', rnd.choice(dups), rnd.choice(msets + dups), gt.OPTION_COMBOS[rnd.randrange(9)]))
+    # shared repeated members (every copy has an exact partner on the other side): all pairs of small multisets that
+    # share a duplicated element and differ elsewhere
+    shared = [[0, 0], [1, 1, 1], ["a", "a"], [[0], [0]], [{"a": 0}, {"a": 0}]]
+    extra = [[], [1], ["a"], [[1]], [0, "a"], [{"a": 1}]]
+    for sh in shared:
+        for x in extra:
+            for y in extra:
+                if x != y:
+                    jobs.append(('mset', sh + x, sh + y, gt.OPTION_COMBOS[rnd.randrange(9)]))
     res = pmap(_check, jobs, repo_root)
     fails = [f for fs in res for f in fs if f['class'].startswith('c01-')]
     return [{
